@@ -68,6 +68,14 @@ def coq_prop(pid, timeout=1500):
     if os.path.exists(vo):
         os.remove(vo)
     ok, out, dt = coq_make([f"Props/{pid}.vo"], timeout=timeout)
+    compiled = re.findall(r"^COQC (\S+)", out, flags=re.M)
+    if ok and [c for c in compiled if c != f"Props/{pid}.v"]:
+        # dependencies were rebuilt in the same make: their own output (some proof files print
+        # assumptions too) is mixed into the log -- check the property file once more on its own
+        if os.path.exists(vo):
+            os.remove(vo)
+        ok, out, dt2 = coq_make([f"Props/{pid}.vo"], timeout=timeout)
+        dt += dt2
     return ok, out, dt
 
 
